@@ -259,7 +259,10 @@ def run_kernel_case(case, ctx):
     the requested kernels (M-delay reads them inside _add_edge_buffer).  Trajectories of these models are C11's business."""
     from vp.props import c11
     monitors.install_delay()
-    ctx11 = {'mp': ctx['mp'], 'open_risks': set(), 'excluded': open_risks(PID) | open_risks('C01')}
+    # (all recorded delay findings stay excluded - e.g. parallel delayed edges, whose kernels the non-vectorized build drops - except
+    # the one whose symptom is a lagging buffer and not a different set of chains)
+    ctx11 = {'mp': ctx['mp'], 'open_risks': (open_risks('C11') | open_risks('C09')) - {'several_kernels_one_merged_source'},
+             'excluded': open_risks(PID) | open_risks('C01')}
     c11case = {'family': 'few_kernels', 'kernels': 'few', 'cseed': case['cseed']}
     if case.get('spec') is not None:
         c11case.update(spec=case['spec'], solver='euler', vec=True)
